@@ -22,7 +22,7 @@ TECHNIQUE = "Lean 4 theorems (every answer order of every tick yields the same d
 LEVEL_TEXT = ("Theorems over the flat multi-tick model: two complete runs of one tick with any two answer orders give every component the same dispatch "
               "(strong induction on the acyclicity rank), and by induction over the tick sequence two runs of the same simulation have the same tick "
               "times and the same per-device (time, inputs) sequences, for deterministic devices; the same holds for histories WITH external stimuli applied between ticks (schedule_independentI: same script of ticks and stamped interrupts => same tick times, observations and wakeups, whatever the answer orders). For nested simulations the whole-simulation model (first-in first-out inside nested schedulers) is proved to have exactly the observations of "
-              "EVERY flat run over the resolved wiring, whatever its answer orders (nested_schedule_independent; with timely external stimuli: nested_schedule_independent_int); ARBITRARY ANSWER ORDERS AT EVERY LEVEL OF NESTING (Core/SimAny, Props/C08NestedAny, C08NestedAnyRun): TickLevelAny is the nested tick in which every scheduler level answers ANY pending dispatch next and a system component's answer is any such execution of its inner level; on a valid configuration two executions of the same tick from equivalent states - whatever the answer orders at this level and inside every system component at every depth - end in equivalent states (same device inputs / last outputs / wakeups as mappings, same per-device observation sequences) with the same exposed output changes (nested_any_order_deterministic), the first-in first-out model is one of the executions (fifo_is_any) and completes every tick that has any execution (any_order_fifo_exists), whole runs incl. external stimuli do the same ticks and observations (any_order_run_deterministic), and every any-order run has the observations of a Synced FlatRun over the resolved wiring (any_order_run_refines_flatRun). FULLY INTERLEAVED (Core/SimInter, Props/C08NestedInter, C08NestedInterRun): a small-step semantics in which the inner ticks of sibling system components - at every depth - are open at the same time and their steps interleave arbitrarily (open / answer / close per active level); every atomic execution is an interleaved one (atomic_is_interleaved), every complete interleaved execution has an atomic execution with the same exposed outputs and the same device state, counts, scheduler state and per-device observations under every key (interleaved_has_atomic, by a forward simulation with a virtual state per active level and disjoint footprints), hence determinism, agreement with the first-in first-out model and its existence, the same observations in all interleaved executions, and whole runs over interleaved ticks refine a Synced FlatRun (interleaved_deterministic, interleaved_fifo_exists, interleaved_same_observations, interleaved_run_refines_flatRun). Not proved: that every reachable interleaved configuration can be completed (liveness of the interleaved semantics itself). MESSAGE LEVEL (Core/MsgFlat, MsgFlatRun; Props/C08Msg, C08MsgRun): one scheduler level over the contract bus with MESSAGES in flight - per-topic append-only logs, one cursor per consumer and topic, replay from the first offset, the scheduler and every component starting at any moment and in any order, any interleaving of deliveries (a component consuming its Input and producing its Output; the scheduler consuming an Output or its own Skip and producing the newly possible dispatches): every message-level step is a stutter or exactly one step of the answer-level tick system (msg_step_refines, msg_tick_refines, msg_abs_is_abstraction), so everything proved of the answer-level traces holds of every message-level history (msg_trace_transfer): at most one reaction per component and tick, only after its in-tick upstreams were consumed, with exactly the prescribed inputs, whatever the interleaving and the start delays (msg_react_at_most_once, msg_react_after_upstreams, msg_observations_exact, msg_tick_deterministic); over many ticks every message-level run refines a FlatRun with the same tick times and observations, so two runs with different interleavings and start patterns make the same observations (msg_run_refines_flatRun, msg_run_schedule_independent). Not at message level: interrupts, nested schedulers, real time. Tie to the code: every generated simulation is run on the real classes under the "
+              "EVERY flat run over the resolved wiring, whatever its answer orders (nested_schedule_independent; with timely external stimuli: nested_schedule_independent_int); ARBITRARY ANSWER ORDERS AT EVERY LEVEL OF NESTING (Core/SimAny, Props/C08NestedAny, C08NestedAnyRun): TickLevelAny is the nested tick in which every scheduler level answers ANY pending dispatch next and a system component's answer is any such execution of its inner level; on a valid configuration two executions of the same tick from equivalent states - whatever the answer orders at this level and inside every system component at every depth - end in equivalent states (same device inputs / last outputs / wakeups as mappings, same per-device observation sequences) with the same exposed output changes (nested_any_order_deterministic), the first-in first-out model is one of the executions (fifo_is_any) and completes every tick that has any execution (any_order_fifo_exists), whole runs incl. external stimuli do the same ticks and observations (any_order_run_deterministic), and every any-order run has the observations of a Synced FlatRun over the resolved wiring (any_order_run_refines_flatRun). FULLY INTERLEAVED (Core/SimInter, Props/C08NestedInter, C08NestedInterRun): a small-step semantics in which the inner ticks of sibling system components - at every depth - are open at the same time and their steps interleave arbitrarily (open / answer / close per active level); every atomic execution is an interleaved one (atomic_is_interleaved), every complete interleaved execution has an atomic execution with the same exposed outputs and the same device state, counts, scheduler state and per-device observations under every key (interleaved_has_atomic, by a forward simulation with a virtual state per active level and disjoint footprints), hence determinism, agreement with the first-in first-out model and its existence, the same observations in all interleaved executions, and whole runs over interleaved ticks refine a Synced FlatRun (interleaved_deterministic, interleaved_fifo_exists, interleaved_same_observations, interleaved_run_refines_flatRun). Not proved: that every reachable interleaved configuration can be completed (liveness of the interleaved semantics itself). MESSAGE LEVEL (Core/MsgFlat, MsgFlatRun; Props/C08Msg, C08MsgRun): one scheduler level over the contract bus with MESSAGES in flight - per-topic append-only logs, one cursor per consumer and topic, replay from the first offset, the scheduler and every component starting at any moment and in any order, any interleaving of deliveries (a component consuming its Input and producing its Output; the scheduler consuming an Output or its own Skip and producing the newly possible dispatches): every message-level step is a stutter or exactly one step of the answer-level tick system (msg_step_refines, msg_tick_refines, msg_abs_is_abstraction), so everything proved of the answer-level traces holds of every message-level history (msg_trace_transfer): at most one reaction per component and tick, only after its in-tick upstreams were consumed, with exactly the prescribed inputs, whatever the interleaving and the start delays (msg_react_at_most_once, msg_react_after_upstreams, msg_observations_exact, msg_tick_deterministic); over many ticks every message-level run refines a FlatRun with the same tick times and observations, so two runs with different interleavings and start patterns make the same observations (msg_run_refines_flatRun, msg_run_schedule_independent). Not at message level: interrupts, nested schedulers, real time. The message-level model is a TRACE ACCEPTOR on every run of a flat scenario without stimuli under the delaying bus and under tickit's own Kafka interface: who subscribed when, which message was delivered to whom in which order and when each tick began must be an execution of Core/MsgFlatRun with the same device updates. Tie to the code: every generated simulation is run on the real classes under the "
               "synchronous bus and under a broker-like bus (per-topic FIFO, one pump per consumer) whose delivery order is enumerated exhaustively by "
               "DFS on small configurations (<= 5 components) and sampled on larger flat and nested ones; all per-device observation sequences must "
               "coincide with each other and with the Lean model's.")
@@ -74,6 +74,8 @@ def run(tier, seed, drv):
                 res.violate(V("run-did-not-complete", str(run_["result"]), site="run"), {"scenario": scn, "prefix": prefix})
                 continue
             compare_obs(base, run_, f"sync vs delivery order {prefix}", scn, res, {"prefix": prefix})
+            if n % 5 == 1:
+                SC.msg_level_accept(scn, run_, drv, res, {"scenario": scn, "prefix": prefix})
         res.count("exhausted" if n < limit else "dfs-cut-at-limit")
     # (b) sampled schedules on larger flat and nested simulations
     scns = SC.corpus_scenarios() + SC.scenario_family(rng, tier, count=24 if tier == "quick" else 250)
@@ -124,6 +126,7 @@ def run(tier, seed, drv):
                 continue
             if compare_obs(base, run_, f"sync vs {hb} seed {sd}", scn, res, {"bus": hb, "held_seed": sd}):
                 SC.check_run(scn, run_, drv, res, monitors_on=(), corr=("inputs", "ticks"), case_extra={"bus": hb, "held_seed": sd})
+                SC.msg_level_accept(scn, run_, drv, res, {"scenario": scn, "bus": hb, "held_seed": sd})
     res.rule = (f"(a) flat wirings of 2-{4 if tier == 'quick' else 5} components, 2 ticks: every delivery order of the delaying bus enumerated by stateless DFS "
                 f"(cut at {limit} orders per wiring); (b) generated flat/nested simulations + corpus under the synchronous bus and 3-6 seeded delaying "
                 "schedules; per-device (time, inputs) sequences compared pairwise and with the Lean model; distinct = (scenario, schedule)")
